@@ -594,6 +594,7 @@ def compat(ctx, objdir):
     tn = TypeNames()
     batch = []      # (kind, line, want, alt, info)   int-valued data probes + accepted declarations, one TU
     rejects = []    # (kind, text, info)              must be refused, one TU each
+    redecl_line = {}  # index of a compsize probe -> text of the redeclaration it looks at
     nid = [0]
 
     def fresh():
@@ -622,6 +623,7 @@ def compat(ctx, objdir):
                         batch.append(("composite", "int v%%d = _Generic(&r%d, %s *: 1, default: 0);" % (i, Bu), 0, int(p["mod_sees_bump"]) if p["dev_composite"] else None, info, None, None))
                     if p["cs_complete"]:
                         # under the deviation the identifier may be left with an incomplete type: sizeof is then refused
+                        redecl_line[len(batch)] = "%s%s r%d; %s%s r%d;" % (ext, A, i, ext, Bn, i)
                         batch.append(("compsize", "int v%%d = sizeof(r%d) == sizeof(%s);" % (i, C), 1,
                                       ("reject" if not p["mod_complete"] else 1) if p["dev_composite"] else None, info, None, None))
             elif p["redecl"] == "reject":
@@ -653,23 +655,40 @@ def compat(ctx, objdir):
         rejects = [x for n, x in enumerate(rejects) if x[0] == "redecl" or n % 3 == 0]
     stats = collections.Counter()
     compat_audit(ctx, pre, batch, lines, rejects, stats)
+    # compatibility does not depend on the target: the refusals (one process each) are replayed in full on x86_64 and
+    # every 7th on the other targets; the data probes on two targets (quick) / all three (thorough)
     for targ in (vlib.TARGETS if not ctx.quick else ["x86_64-sysv", "aarch64"]):
-        compat_target(ctx, objdir, targ, pre, batch, lines, rejects if targ == "x86_64-sysv" or not ctx.quick else rejects[::7], stats)
+        compat_target(ctx, objdir, targ, pre, batch, lines, rejects if targ == "x86_64-sysv" else rejects[::7], stats, redecl_line)
     ctx.cov.setdefault("stats", {})["compat"] = dict(stats)
     ctx.validated(len(cases))
     ctx.sample({"compat pair": batch[len(batch) // 2][4], "probe": lines[len(batch) // 2], "required": batch[len(batch) // 2][2]})
 
 
-def compat_target(ctx, objdir, targ, pre, batch, lines, rejects, stats):
+def compat_target(ctx, objdir, targ, pre, batch, lines, rejects, stats, redecl_line):
     npre = pre.count("\n")
-    live = list(range(len(batch)))
+    # probes the model of the shipped code expects to be refused (sizeof of an identifier left with an incomplete type
+    # by deviation CompositeIsFirst) are compiled one by one together with their redeclaration; everything else in one TU
+    solo = [j for j, b in enumerate(batch) if b[3] == "reject"]
+    live = [j for j in range(len(batch)) if batch[j][3] != "reject"]
     refused = {}
     vals = None
+
+    def one_solo(j):
+        rc, out, err = vlib.cproc(objdir, pre + redecl_line[j] + "\n" + lines[j] + "\n", targ, timeout=60)
+        return j, rc, out, err
+    solo_vals = {}
+    for j, rc, out, err in vlib.pmap(one_solo, solo, workers=12):
+        if rc == 0:
+            solo_vals.update(parse_data_values(out))
+        else:
+            m = _ERRLINE.search(err)
+            refused[j] = m.group(2) if m else "rc=%s %s" % (rc, err.strip()[-120:])
     for _ in range(3000):
         src = pre + "\n".join(lines[j] for j in live) + "\n"
         rc, out, err = vlib.cproc(objdir, src, targ, timeout=300)
         if rc == 0:
             vals = parse_data_values(out)
+            vals.update(solo_vals)
             break
         m = _ERRLINE.search(err)
         if not m:
@@ -728,7 +747,9 @@ def compat_target(ctx, objdir, targ, pre, batch, lines, rejects, stats):
 
 def compat_audit(ctx, pre, batch, lines, rejects, stats):
     """gcc / clang on the same probes: data probes as _Static_assert, accept probes as they are, reject probes
-    each on its own line with unique names; the set of lines with errors must be exactly the reject lines."""
+    each on its own line with unique names; the set of lines with errors must be exactly the reject lines.
+    The body is cut into translation units of <= 15000 lines (a redeclaration and the probes that look at the
+    redeclared identifier stay together)."""
     body, expect_err = [], set()
     for j, b in enumerate(batch):
         kind, fmt, want, alt, info, A, Bn = b
@@ -741,13 +762,22 @@ def compat_audit(ctx, pre, batch, lines, rejects, stats):
     for n, (kind, text, info) in enumerate(rejects):
         body.append(re.sub(r"\b([xfghk])\b", lambda mm: "%s_%d" % (mm.group(1), n), text))
         expect_err.add(base + n)
-    for comp in ("gcc", "clang"):
+    infos = [b[4] for b in batch] + [rj[2] for rj in rejects]
+    cuts, start = [], 0
+    for i in range(len(body)):
+        if i - start >= 15000 and (i >= base or batch[i][0] in ("builtin", "generic", "redecl", "ptrinit")):
+            cuts.append((start, i))
+            start = i
+    cuts.append((start, len(body)))
+
+    def one(job):
+        comp, lo, hi = job
         fixed = comp != "gcc"
         p2 = pre if fixed else pre.replace(enum_prelude(True), enum_prelude(False))
         npre = p2.count("\n")
-        path = ctx.path("compat_audit_%s.c" % comp)
+        path = ctx.path("compat_audit_%s_%d.c" % (comp, lo))
         with open(path, "w") as f:
-            f.write(p2 + "\n".join(body) + "\n")
+            f.write(p2 + "\n".join(body[lo:hi]) + "\n")
         if comp == "gcc":
             cmd = ["gcc", "-std=gnu2x", "-fsyntax-only", "-Werror=incompatible-pointer-types", "-Werror=discarded-qualifiers",
                    "-Werror=discarded-array-qualifiers", "-Werror=pointer-sign", "-Wno-unused", "-fmax-errors=0", path]
@@ -755,15 +785,22 @@ def compat_audit(ctx, pre, batch, lines, rejects, stats):
             cmd = ["clang", "--target=x86_64-linux-gnu", "-std=gnu2x", "-fsyntax-only", "-Werror=incompatible-pointer-types",
                    "-Werror=incompatible-pointer-types-discards-qualifiers", "-Werror=pointer-sign",
                    "-Werror=incompatible-function-pointer-types", "-ferror-limit=0", path]
-        p = subprocess.run(cmd, stdout=subprocess.PIPE, stderr=subprocess.PIPE, text=True, timeout=900)
+        p = subprocess.run(cmd, stdout=subprocess.PIPE, stderr=subprocess.PIPE, text=True, timeout=1800)
+        os.unlink(path)
         got = {}
         for m in re.finditer(r"^[^\n:]+:(\d+):\d+: error: ([^\n]*)", p.stderr, re.M):
-            got.setdefault(int(m.group(1)) - npre - 1, m.group(2))
-        if any(i < 0 for i in got):
+            got.setdefault(int(m.group(1)) - npre - 1 + lo, m.group(2))
+        if any(i < lo for i in got):
             raise vlib.MachineryError("%s rejects the compat prelude: %s" % (comp, p.stderr[:500]))
+        return comp, lo, hi, got
+    jobs = [(comp, lo, hi) for comp in ("gcc", "clang") for lo, hi in cuts]
+    gots = {"gcc": {}, "clang": {}}
+    for comp, lo, hi, got in vlib.pmap(one, jobs, workers=8):
+        gots[comp].update(got)
+    for comp in ("gcc", "clang"):
+        got = gots[comp]
         unexpected = sorted(set(got) - expect_err)
         missing = sorted(expect_err - set(got))
-        infos = [b[4] for b in batch] + [rj[2] for rj in rejects]
         # 6.7.3p10 + 6.7.2.2p4: `const enum eu` and `const unsigned` are compatible.  gcc 12 (comptypes replaces a
         # complete enum by its unqualified underlying type) and clang 14 (mergeEnumWithInteger compares the underlying
         # type with the qualified other type, below the first pointer level) judge such pairs incompatible.
@@ -777,12 +814,11 @@ def compat_audit(ctx, pre, batch, lines, rejects, stats):
         skip |= skip2
         unexpected = [i for i in unexpected if i not in skip]
         missing = [i for i in missing if i not in skip]
+        stats["audit_%s_lines" % comp] = len(body)
         if (unexpected or missing) and os.environ.get("C05_DEBUG"):
             with open(os.environ["C05_DEBUG"] + "." + comp, "w") as f:
                 for i in unexpected + missing:
                     f.write("%s\t%s\n" % (body[i], got.get(i, "ACCEPTED")))
-            import shutil
-            shutil.copy(path, os.environ["C05_DEBUG"] + "." + comp + ".c")
         if unexpected or missing:
             i = (unexpected or missing)[0]
             raise vlib.MachineryError("SPEC-AUDIT: %s disagrees with CTypes on %d accept and %d reject probes; first: `%s` -> %s" % (
@@ -1119,11 +1155,21 @@ def run(ctx):
     # C05_PARTS (development aid, e.g. for negative controls): comma-separated subset of scalar,compat,nested,traces
     parts = set((os.environ.get("C05_PARTS") or "scalar,compat,nested,traces").split(","))
     table = cases = None
+    import time
+    walls = ctx.cov.setdefault("part_wall_s", {})
+    t0 = time.time()
     if "scalar" in parts or "traces" in parts:
         table, cases = scalar(ctx, objdir, replay="scalar" in parts)
+    walls["scalar"] = round(time.time() - t0, 1)
+    t0 = time.time()
     if "compat" in parts:
         compat(ctx, objdir)
+    walls["compat"] = round(time.time() - t0, 1)
+    t0 = time.time()
     if "nested" in parts:
         nested(ctx, objdir)
+    walls["nested"] = round(time.time() - t0, 1)
+    t0 = time.time()
     if "traces" in parts:
         traces(ctx, table, cases)
+    walls["traces"] = round(time.time() - t0, 1)
